@@ -24,6 +24,8 @@ func init() {
 		blankCommandCases(c)
 		timedOrderCases(c)
 		missingProgramCases(c)
+		hookShellStateCases(c)
+		chattyCommandCases(c)
 	}
 	props["C07"] = func(c *Collector, tier string, seed int64) {
 		runRunnerProp(c, "C07", tier, seed)
@@ -914,5 +916,105 @@ func rerunCases(col *Collector) {
 			cs.Fail, cs.Sig = fmt.Sprintf("second run of the same task: commands %s error %v, expected %s and no error", second, err2, want2), "c06-trace"
 		}
 		col.Add(cs)
+	}
+}
+
+// every before / after / condition command is a shell of its own: shell options, the working directory, variables and
+// functions that one of them sets are gone in the next one - of the same task and of the tasks run later by the same
+// runner. One runner, a first task whose service commands leave as much shell state behind as they can, then tasks
+// whose service commands contain a statement that fails but is not the last one.
+func hookShellStateCases(col *Collector) {
+	leaks := []struct{ name, stmt string }{
+		{"set -e", "set -e"},
+		{"set -eu", "set -eu"},
+		{"set -o pipefail -e", "set -o pipefail; set -e"},
+		{"cd / and a function called echo", "cd /; echo() { return 9; }"},
+		{"readonly variable and set -e", "readonly UNSET_BY_ANYONE=leaked; set -e"},
+	}
+	for _, lk := range leaks {
+		for _, reuse := range []bool{false, true} {
+			trace := newTracePath()
+			cs := Case{Replay: fmt.Sprintf("one runner; first task: before/after/condition start with `%s`; then %s whose before/after/condition contain a failing statement that is not the last one",
+				lk.name, map[bool]string{false: "a second task", true: "the same task again and a second task"}[reuse]), Tags: []string{"hook-shell-state"}, NonTrivial: true}
+			r, err := runner.NewTaskRunner()
+			if err != nil {
+				cs.Fail, cs.Sig = err.Error(), "runner-panic"
+				col.Add(cs)
+				continue
+			}
+			r.Stdout, r.Stderr = devNull{}, devNull{}
+			t1 := task.NewTask()
+			t1.Name = "leaky"
+			t1.Condition = lk.stmt + "; true"
+			t1.Before = []string{lk.stmt + "; command echo b1 >> " + trace, lk.stmt + "; command echo b1x >> " + trace}
+			t1.Commands = []string{"echo c1 >> " + trace}
+			t1.After = []string{lk.stmt + "; command echo a1 >> " + trace}
+			t2 := task.NewTask()
+			t2.Name = "tolerant"
+			t2.Condition = "false; cat /nonexistent 2>/dev/null; true"
+			t2.Before = []string{"false; echo $UNSET_BY_ANYONE b2 >> " + trace, "cat /nonexistent 2>/dev/null | true; false; echo b2x >> " + trace}
+			t2.Commands = []string{"echo c2 >> " + trace}
+			t2.After = []string{"false; echo a2 >> " + trace, "false; echo a2x >> " + trace}
+			want := []string{"b1", "b1x", "c1", "a1"}
+			var errs []string
+			if e := r.Run(t1); e != nil {
+				errs = append(errs, "leaky: "+e.Error())
+			}
+			if reuse {
+				want = append(want, "b1", "b1x", "c1", "a1")
+				if e := r.Run(t1); e != nil {
+					errs = append(errs, "leaky again: "+e.Error())
+				}
+			}
+			want = append(want, "b2", "b2x", "c2", "a2", "a2x")
+			if e := r.Run(t2); e != nil {
+				errs = append(errs, "tolerant: "+e.Error())
+			}
+			got := readTrace(trace)
+			os.Remove(trace)
+			cs.Impl = fmt.Sprintf("%s|errs=%v", strings.Join(got, ","), errs)
+			if strings.Join(got, ",") != strings.Join(want, ",") || len(errs) > 0 {
+				cs.Fail, cs.Sig = fmt.Sprintf("commands that ran: %v (errors %v); each service command is a shell of its own, the definitions prescribe %v and no error", got, errs, want), "c06-trace"
+			}
+			col.Add(cs)
+		}
+	}
+}
+
+// how much a command prints does not decide whether the commands after it run: external programs writing a few hundred
+// KiB to stdout or stderr in the middle of a task with two variations and an after hook
+func chattyCommandCases(col *Collector) {
+	for _, sh := range []struct{ name, cmd string }{
+		{"seq to stdout", "seq 1 40000"},
+		{"seq to stderr", "seq 1 40000 >&2"},
+		{"one 300000-byte line", "head -c 300000 /dev/zero | tr '\\0' x"},
+		{"many commands of 50 KiB each", "head -c 50000 /dev/zero | tr '\\0' y"},
+	} {
+		for _, format := range []string{"raw", "prefixed"} {
+			trace := newTracePath()
+			t := task.NewTask()
+			t.Name = "chatty"
+			t.Commands = []string{"echo c0.$V >> " + trace, sh.cmd, sh.cmd, sh.cmd, "echo c4.$V >> " + trace}
+			t.Variations = []map[string]string{{"V": "x"}, {"V": "y"}}
+			t.After = []string{"echo after >> " + trace}
+			want := "c0.x,c4.x,c0.y,c4.y,after"
+			cs := Case{Replay: fmt.Sprintf("task with two variations: echo, three times `%s` (%s), echo; after hook; output format %s", sh.cmd, sh.name, format), Tags: []string{"chatty-command"}, NonTrivial: true}
+			r, err := runner.NewTaskRunner()
+			if err != nil {
+				cs.Fail, cs.Sig = err.Error(), "runner-panic"
+				col.Add(cs)
+				continue
+			}
+			r.OutputFormat = format
+			r.Stdout, r.Stderr = devNull{}, devNull{}
+			rerr := r.Run(t)
+			got := strings.Join(readTrace(trace), ",")
+			os.Remove(trace)
+			cs.Impl = fmt.Sprintf("%s|err=%v", got, rerr != nil)
+			if got != want || rerr != nil {
+				cs.Fail, cs.Sig = fmt.Sprintf("commands that ran: %s (error %v), the task definition prescribes %s and no error", got, rerr, want), "c06-trace"
+			}
+			col.Add(cs)
+		}
 	}
 }
